@@ -102,6 +102,8 @@ def formatter_scenarios(rng, thorough):
         for lv in range(1, 7):
             lines.append("NOALLOC %d %d %d %d" % (f, lv, rng.choice([0, 3, 50]), rng.randint(0, 3)))
     out.append(lines)
+    # the default destination (neither stream nor file name: the process's stderr), two loggers in a row
+    out.append(["NADEF %d %d %d" % (f, lv, rng.choice([0, 3, 50])) for f, lv in ((6, 3), (3, 3), (2, 3), (0, 1), (6, 6), (4, 1))])
     lines = []
     for nm in ["NONE", "FATAL", "ERROR", "WARN", "INFO", "DEBUG", "TRACE"]:
         for v in {nm, nm.lower(), nm.capitalize(), nm[:-1], nm + "X", nm[1:], "".join(rng.choice([c.lower(), c]) for c in nm)}:
